@@ -261,12 +261,15 @@ def attr_combos():
     return [(i, t, f) for i in IDS for t in TITLES for f in FILES]
 
 
-def mk_rule(idx, combo):
+def mk_rule(idx, combo, identical=False):
     from sigma.exceptions import SigmaRuleLocation
     from sigma.rule import SigmaRule
 
     i, t, f = combo
     d = {"title": t, "logsource": {"category": "c"}, "detection": {"sel": {"f": f"v{idx}"}, "condition": "sel"}, "description": f"rule#{idx}"}
+    if identical:  # verbatim copies: rules with the same combo are equal objects (the same file listed twice)
+        d["detection"]["sel"]["f"] = "v"
+        d["description"] = "copy"
     if IDS[i]:
         d["id"] = IDS[i]
     r = SigmaRule.from_dict(d, source=SigmaRuleLocation(Path("/rules/" + f)) if f else None)
@@ -295,33 +298,34 @@ def ref_C(coll, excl):
     return sorted(out)
 
 
-def issues_C(issues):
+def issues_C(issues, index):
+    """rules of an issue are identified by object identity (index: id(rule object) -> position in the collection)"""
     out = []
     for i in issues:
         extra = {k: str(v) for k, v in vars(i).items() if k != "rules"}
-        out.append((type(i).__name__, tuple(sorted(str(r.description) for r in i.rules)), tuple(sorted(extra.items()))))
+        out.append((type(i).__name__, tuple(sorted(f"rule#{index.get(id(r), '?')}" for r in i.rules)), tuple(sorted(extra.items()))))
     return sorted(out)
 
 
-def judge_C(res, st, combos, vorder, excl):
+def judge_C(res, st, combos, vorder, excl, identical=False):
     from uuid import UUID
 
     from sigma.validation import SigmaValidator
 
     vs = all_validators()
     coll = list(enumerate(combos))
-    case = {"sub": "C", "rules": [list(c) for c in combos], "validator_order": list(vorder), "exclusions": {k: sorted(v) for k, v in excl.items()}}
+    case = {"sub": "C", "rules": [list(c) for c in combos], "validator_order": list(vorder), "exclusions": {k: sorted(v) for k, v in excl.items()}, "identical_copies": identical}
     res["evaluations"] += 1
     st.history()
     st.transition(len(combos))
     st.state([combos, vorder, sorted(excl)])
-    rules = [mk_rule(i, c) for i, c in coll]
+    rules = [mk_rule(i, c, identical) for i, c in coll]
     ex = {(UUID(IDS[k]) if IDS[k] else None): {vs[v] for v in vals} for k, vals in excl.items()}
     sv = SigmaValidator([vs[v] for v in vorder], ex)
     byclass = {type(v): v for v in sv.validators}
     sv.validators = [byclass[vs[v]] for v in vorder]  # own the iteration order of the validator set
     try:
-        got = issues_C(sv.validate_rules(iter(rules)))
+        got = issues_C(sv.validate_rules(iter(rules)), {id(r): n for n, r in enumerate(rules)})
     except Exception as e:
         add_violation(res, f"C:exception:{type(e).__name__}", case, "issues", repr(e)[:200])
         return
@@ -331,7 +335,7 @@ def judge_C(res, st, combos, vorder, excl):
         res["nontrivial"].add(h64(case))
     if got != exp:
         which = sorted({x[0] for x in set(got) ^ set(exp)})
-        add_violation(res, "C:issue-set-differs:" + ",".join(which) + (":with-exclusion" if excl else ""), case, exp, got)
+        add_violation(res, "C:issue-set-differs:" + ",".join(which) + (":with-exclusion" if excl else "") + (":identical-copies" if identical else ""), case, exp, got)
 
 
 # ------------------------------------------------------------------------------------------------
@@ -379,6 +383,8 @@ def run_shard(shard, tier, seed):
                 orders = list(itertools.permutations(STATEFUL)) if size <= 2 else [tuple(STATEFUL), tuple(reversed(STATEFUL))]
                 for vorder in orders:
                     judge_C(res, st, coll, vorder, {})
+                if len(set(coll)) < len(coll):  # some combination occurs twice: also as verbatim copies
+                    judge_C(res, st, coll, tuple(STATEFUL), {}, identical=True)
                 for ev in STATEFUL:
                     judge_C(res, st, coll, tuple(STATEFUL), {"A": {ev}})
                 judge_C(res, st, coll, tuple(STATEFUL), {"-": {"duplicate_title"}})
@@ -390,7 +396,7 @@ def replay(case):
     res = new_result()
     st = E.Stats(res)
     if case["sub"] == "C":
-        judge_C(res, st, [tuple(c) for c in case["rules"]], tuple(case["validator_order"]), {k: set(v) for k, v in case["exclusions"].items()})
+        judge_C(res, st, [tuple(c) for c in case["rules"]], tuple(case["validator_order"]), {k: set(v) for k, v in case["exclusions"].items()}, case.get("identical_copies", False))
     elif case["sub"] == "B":
         doc = next(d for d in POOL_B if d["title"] == case["rule"])
         judge_B(res, st, doc, case["validator"], tuple(case["ops"]))
